@@ -285,6 +285,28 @@ impl Rw {
                 return syn::parse2(ts).ok();
             }
         }
+        // R-CTLFILTER: X.replace(|c: char| c.is_ascii_control(), E)  (exactly this predicate; any other closure stays and is rejected)
+        if name == "replace" && m.args.len() == 2 {
+            if let Expr::Closure(cl) = &m.args[0] {
+                if cl.inputs.len() == 1 {
+                    let mut pname: Option<String> = None;
+                    match &cl.inputs[0] {
+                        syn::Pat::Type(pt) => { if let syn::Pat::Ident(pi) = &*pt.pat { if pt.ty.to_token_stream().to_string() == "char" { pname = Some(pi.ident.to_string()); } } }
+                        syn::Pat::Ident(pi) => { pname = Some(pi.ident.to_string()); }
+                        _ => {}
+                    }
+                    if let Some(pn) = pname {
+                        let body = cl.body.to_token_stream().to_string().replace(' ', "");
+                        if body == format!("{}.is_ascii_control()", pn) {
+                            let x = &m.receiver;
+                            let to = &m.args[1];
+                            self.log("R-CTLFILTER", sp, "X.replace(|c: char| c.is_ascii_control(), E) -> (X).rws_replace_ascii_control(E)");
+                            return syn::parse2(quote! { (#x).rws_replace_ascii_control(#to) }).ok();
+                        }
+                    }
+                }
+            }
+        }
         // R-STRSLICE: X[a..b].to_string() / .to_owned()  (only a str can be sliced and then turned into a String this way)
         if (name == "to_string" || name == "to_owned") && m.args.is_empty() {
             if let Expr::Index(ix) = recv {
